@@ -1517,6 +1517,7 @@ func main() {
 		{"S-dfs-2p-same", SchedCfg{Progs: [][]int{{0}, {0}}, NNext: 2}},
 		{"S-dfs-1p2-close", SchedCfg{Progs: [][]int{{0, 0}}, NNext: 2, NClose: 1}},
 		{"S-dfs-2p-distinct", SchedCfg{Progs: [][]int{{0}, {1}}, NNext: 1}},
+		{"S-dfs-1p-close-cancel", SchedCfg{Progs: [][]int{{0}}, NNext: 2, NClose: 1, NCancel: 1}},
 	}
 	depth, leavesMax := 14, 1600
 	if o.Thorough() {
